@@ -138,6 +138,8 @@ def run_history(case, root, u, schedules, name=None, base_args=('-r', 'T')):
                 summary['thread_ended_by_stdin'] += 1
             if e in ('', 'h'):
                 summary['status_requests'] += 1
+                if posn and posn[0] == 'before_expand':
+                    summary['status_before_expansion'] = summary.get('status_before_expansion', 0) + 1
                 if not alive_after:
                     raise Violation('keyboard_thread_died_on_status', f'run {ri}: the keyboard thread terminated on a status/help request '
                                     f'({e!r} at {posn}); later quit requests can no longer be received. thread errors: {getattr(r, "thread_errors", [])}', case)
